@@ -80,6 +80,19 @@ def _finish(res, ex, outs, records, names, p):
             res.inconc("z3 unknown", clause)
 
 
+def _marked_arg(p, marked):
+    """the marked qubits in the form the instance asks for: every kind of Iterable[int] the signature allows, the one-shot ones
+    included (consumed by whoever walks them first)"""
+    form = p.get("marked_form")
+    if not form:
+        return p["marked_arg"] if "marked_arg" in p else marked
+    return {
+        "iter": lambda: iter(list(marked)), "gen": lambda: (q for q in marked), "map": lambda: map(int, [str(q) for q in marked]),
+        "tuple": lambda: tuple(marked), "frozenset": lambda: frozenset(marked), "dict_keys": lambda: dict.fromkeys(marked).keys(),
+        "reversed": lambda: reversed(list(reversed(marked))), "range": lambda: range(marked[0], marked[-1] + 1),
+    }[form]()
+
+
 def _w_freq(res, p):
     """get_expectation_value_from_frequencies with every count symbolic (ints >= 0, total >= 1)."""
     from orquestra.quantum.measurements.measurements import get_expectation_value_from_frequencies
@@ -101,7 +114,8 @@ def _w_freq(res, p):
     def fn(ex):
         freqs = {k: (ST.SV(names[f"n_{k}"], True) if f"n_{k}" in names else conc[k]) for k in keys}
         before = dict(freqs)
-        val = get_expectation_value_from_frequencies(p["marked_arg"] if "marked_arg" in p else marked, freqs)
+        marked_arg = _marked_arg(p, marked)
+        val = get_expectation_value_from_frequencies(marked_arg, freqs)
         if ST.poisoned(val):
             raise ST.Inconclusive("NaN poison")
         N = sum(names.values()) + sum(conc.values())
@@ -300,6 +314,14 @@ def _w_parities(res, p):
         res.candidate("parity-tallies", bad, dict(p, clause="parity-tallies", values={}), sub="parity-tallies")
     else:
         res.ob(0, 1, "ground-numeric")
+    for bt in (BIT_TYPES if p.get("bit_types") else ()):
+        res.d["ground_instances"] += 1
+        res.ob(1)
+        bad = parities_bad(shots, p["terms"], op, bt)
+        if bad:
+            res.candidate("parity-tallies", f"bits of type {bt}: {bad}", dict(p, clause="parity-tallies", values={}, bit_type=bt), sub=f"parity-tallies:{bt}")
+        else:
+            res.ob(0, 1, "ground-numeric")
 
 
 class _SymMultiset:
@@ -383,9 +405,16 @@ def parities_sym_replay(p, vals):
     return bool(bad), bad or "ok"
 
 
-def parities_bad(shots, terms, op):
+BIT_TYPES = {"bool": bool, "np.bool_": np.bool_, "np.int8": np.int8, "np.int64": np.int64, "np.uint8": np.uint8}
+
+
+def parities_bad(shots, terms, op, bit_type=None):
     from orquestra.quantum.measurements import get_parities_from_measurements
 
+    if bit_type:
+        # the same shots with every bit a bool / numpy scalar: numpy picks its arithmetic from the kinds of numbers it is given
+        # (bool @ bool is a logical OR, uint8 sums wrap at 256)
+        shots = [tuple(BIT_TYPES[bit_type](b) for b in s) for s in shots]
     before = list(shots)
     par = get_parities_from_measurements(shots, op)
     if shots != before:
@@ -433,6 +462,9 @@ def instances(tier, seed):
             items.append(("freq", {"width": w, "marked": marked, "label": f"width={w} marked={marked}"}))
     items.append(("freq", {"width": 3, "marked": [2, 0], "subset": [1, 4, 6], "label": "width=3 marked=[2,0] keys 001,100,110 only"}))
     items.append(("freq", {"width": 2, "marked": [1, 1 - 1][:1], "marked_arg": (1,), "label": "width=2 marked as tuple"}))
+    for form in ("iter", "gen", "map", "tuple", "frozenset", "dict_keys", "reversed"):
+        items.append(("freq", {"width": 3, "marked": [0, 2], "marked_form": form, "label": f"width=3 marked=[0, 2] handed over as {form}"}))
+    items.append(("freq", {"width": 3, "marked": [1, 2], "marked_form": "range", "label": "width=3 marked=[1, 2] handed over as range"}))
     # large histograms (thousands of distinct outcomes, every count symbolic): sizes around powers of two and in between
     wide = [(13, [0, 12], [0, 8192, 2], "4096 keys"), (13, [5], [1, 8192, 2], "4096 keys, odd"), (13, [0, 12], [0, 8191, 1][:3], "8191 keys"), (13, [], [0, 4097, 1], "4097 keys, constant term"), (13, [3, 7, 11], [100, 4197, 1], "4097 keys"), (9, [0, 8], [0, 257, 1], "257 keys")]
     for w, marked, rng_, tag in (wide if tier == "thorough" else [wide[4], wide[5]]):
@@ -502,6 +534,12 @@ def instances(tier, seed):
                 terms = rng.choice(OPERATORS[w])
                 t = [[qs, (0.5 * (i + 1) if isinstance(c, str) else c)] for i, (qs, c) in enumerate(terms)]
                 items.append(("parities", {"shots": ms, "terms": t, "label": f"parities shots={ms} terms={t}"}))
+    # bits of every scalar kind (bool, numpy bool / int8 / uint8 / int64): shots in which a term has two and three marked ones,
+    # and a 300-shot list (sums beyond a byte)
+    for w, ms in [(2, [[1, 1], [0, 1], [1, 1], [0, 0]]), (3, [[1, 1, 1], [1, 1, 0], [0, 1, 1], [1, 0, 1], [0, 0, 0]]), (3, [[1, 1, 1]] * 150 + [[1, 1, 0]] * 149 + [[0, 0, 1]])]:
+        for terms in OPERATORS[w][:4]:
+            t = [[qs, (0.5 * (i + 1) if isinstance(c, str) else c)] for i, (qs, c) in enumerate(terms)]
+            items.append(("parities", {"shots": ms, "terms": t, "bit_types": True, "label": f"parities with bits of every scalar kind, {len(ms)} shots of width {w}, terms={t}"}))
     return items
 
 
@@ -543,7 +581,7 @@ def replay(data):
                 keys = [keys[i] for i in range(*p["subset_range"])]
             freqs = {k: int(vals.get(f"n_{k}", 1 + i % 3 if p.get("sym_stride") else 1)) for i, k in enumerate(keys)}
             try:
-                got = get_expectation_value_from_frequencies(marked, dict(freqs))
+                got = get_expectation_value_from_frequencies(_marked_arg(p, marked), dict(freqs))
             except Exception as e:
                 return clause == "raises", f"raised {type(e).__name__}: {e}"
             want = sum(eig(k, marked) * n for k, n in freqs.items()) / sum(freqs.values())
@@ -554,7 +592,7 @@ def replay(data):
             c = [c for c in r.d["candidates"] if c["clause"] == clause]
             return bool(c), (c[0]["what"] if c else "no violation on re-execution")
         if clause == "parity-tallies":
-            bad = parities_bad([tuple(s) for s in p["shots"]], [tuple(t) for t in p["terms"]], build_operator(p["terms"], lambda c: c))
+            bad = parities_bad([tuple(s) for s in p["shots"]], [tuple(t) for t in p["terms"]], build_operator(p["terms"], lambda c: c), p.get("bit_type"))
             return bool(bad), bad or "ok"
         from orquestra.quantum.measurements import Measurements
 
